@@ -31,7 +31,15 @@ ASSUMPTIONS = [
 ]
 INV = {"+": "-", "-": "+"}
 OTHER = {"L": "R", "R": "L"}
-COMP = {"A": "T", "C": "G", "G": "C", "T": "A", "a": "t", "c": "g", "g": "c", "t": "a", "N": "N", "n": "n"}
+# IUPAC nucleotide codes and their complements (from the IUPAC table: R = A/G <-> Y = C/T, K = G/T <-> M = A/C,
+# B = not A <-> V = not T, D = not C <-> H = not G; S = C/G, W = A/T and N are their own complements)
+_PAIRS = [("A", "T"), ("C", "G"), ("R", "Y"), ("K", "M"), ("B", "V"), ("D", "H")]
+COMP = {}
+for _a, _b in _PAIRS:
+    COMP[_a], COMP[_b], COMP[_a.lower()], COMP[_b.lower()] = _b, _a, _b.lower(), _a.lower()
+for _c in "SWN":
+    COMP[_c], COMP[_c.lower()] = _c, _c.lower()
+IUPAC = "ACGTACGTACGTRYKMSWBDHVNacgtswn"
 
 
 def rc(s):
@@ -459,6 +467,7 @@ def prop(case):
 
 
 def build_chain_graph(r):
+    iupac = gen.chance(r, 0.3)  # sequences over the whole IUPAC alphabet, in both cases
     n = r.randint(2, 9)
     names = ["s%d" % i for i in range(n)]
     lines = []
@@ -468,7 +477,7 @@ def build_chain_graph(r):
         slen[s] = k
         tags = []
         if gen.chance(r, 0.65):
-            seq = "".join(gen.choice(r, "ACGT") for _ in range(k))
+            seq = "".join(gen.choice(r, "ACGT" if not iupac else IUPAC) for _ in range(k))
             if gen.chance(r, 0.5):
                 tags.append(["LN", "i", str(k)])
         else:
